@@ -106,6 +106,7 @@ EXPORT errno_t _strcmpfld_s_chk(const char *dest, rsize_t dmax, const char *src,
         dmax--;
     }
 
-    *resultp = *dest - *src;
+    /* equal in all dmax characters: nothing behind the fields is read */
+    *resultp = dmax ? *dest - *src : 0;
     return (EOK);
 }
